@@ -114,6 +114,84 @@ Proof.
   rewrite E, strip_plus by assumption. rewrite <- E. apply dec_value. exact H.
 Qed.
 
+(* ---------------- TTL texts with units, mnemonics in any case ---------------- *)
+
+Lemma ttl_loop_digits_app : forall s rest cur v, Forall (fun c => is_digit c = true) s -> s <> [] ->
+  ttl_loop (s ++ rest) cur v = ttl_loop rest (Some (match cur with Some ds => ds ++ s | None => s end)) v.
+Proof.
+  induction s as [|c r IH]; intros rest cur v H Hne; [congruence|].
+  inversion H as [|? ? Hc Hr]; subst. cbn [app ttl_loop]. rewrite Hc.
+  destruct r as [|c2 r2].
+  - destruct cur; reflexivity.
+  - rewrite IH by (auto; discriminate). destruct cur; cbn; [rewrite <- app_assoc|]; reflexivity.
+Qed.
+
+Lemma unit_secs_mult u m : unit_secs u = Some m -> ttl_mult u = Some m /\ is_digit u = false /\ 1 <= m.
+Proof.
+  unfold unit_secs. intros H.
+  repeat match type of H with
+  | (if ?b then _ else _) = _ => let E := fresh "E" in destruct b eqn:E;
+      [apply orb_true_iff in E as [E|E]; apply N.eqb_eq in E; subst u; inversion H; subst; repeat split; try reflexivity; lia|]
+  end. discriminate.
+Qed.
+
+Lemma units_value_le : forall ps v, units_value ps = Some v -> True.
+Proof. auto. Qed.
+
+Lemma ttl_loop_units : forall ps tv rest v, units_value ps = Some tv -> v + tv <= u32max ->
+  ttl_loop (units_text ps ++ rest) None v = ttl_loop rest None (v + tv).
+Proof.
+  induction ps as [|[n u] ps IH]; intros tv rest v Hv Hb; cbn [units_text units_value] in *.
+  - inversion Hv; subst. cbn [app]. now rewrite N.add_0_r.
+  - destruct (unit_secs u) as [m|] eqn:Eu; [|discriminate].
+    destruct (units_value ps) as [w|] eqn:Ew; [|discriminate]. inversion Hv; subst. clear Hv.
+    destruct (unit_secs_mult u m Eu) as (Hm & Hd & Hm1).
+    rewrite <- app_assoc. rewrite ttl_loop_digits_app by (auto using dec_digits, dec_nonempty).
+    cbn [app ttl_loop]. rewrite Hd, Hm.
+    assert (Hn : n <= n * m) by nia.
+    rewrite dec_value by (unfold u32max in *; nia).
+    replace (u32max <? n * m) with false by (symmetry; apply N.ltb_ge; unfold u32max in *; nia).
+    replace (u32max <? v + n * m) with false by (symmetry; apply N.ltb_ge; unfold u32max in *; nia).
+    rewrite (IH w rest (v + n * m) eq_refl) by (unfold u32max in *; nia).
+    f_equal. lia.
+Qed.
+
+Lemma parse_ttl_text t s : TtlText t s -> t <= u32max -> parse_ttl s = Some t.
+Proof.
+  intros [|ps Hne Hv|ps v n Hne Hv ->] Ht.
+  - now apply parse_ttl_dec.
+  - unfold parse_ttl. destruct (units_text ps) eqn:E.
+    { destruct ps as [|[n u] r]; [congruence|]. cbn [units_text] in E.
+      pose proof (dec_nonempty n). destruct (dec n); [congruence|discriminate]. }
+    rewrite <- E. rewrite <- (app_nil_r (units_text ps)).
+    rewrite (ttl_loop_units ps t [] 0 Hv) by (rewrite N.add_0_l; exact Ht). reflexivity.
+  - unfold parse_ttl. destruct (units_text ps ++ dec n) eqn:E.
+    { pose proof (dec_nonempty n). destruct (units_text ps); destruct (dec n); try congruence; discriminate. }
+    rewrite <- E. rewrite (ttl_loop_units ps v (dec n) 0 Hv) by lia.
+    rewrite N.add_0_l. rewrite ttl_loop_digits by (auto using dec_digits, dec_nonempty). cbn [ttl_loop].
+    rewrite dec_value by lia.
+    replace (u32max <? v + n) with false by (symmetry; apply N.ltb_ge; lia). reflexivity.
+Qed.
+
+Lemma parse_ttl_nondigit c r : is_digit c = false -> parse_ttl (c :: r) = None.
+Proof. intros H. unfold parse_ttl. cbn [ttl_loop]. rewrite H. reflexivity. Qed.
+
+Lemma to_upper_digit c : is_digit c = true -> to_upper c = c.
+Proof.
+  unfold to_upper, is_lower, is_digit. intros H. apply andb_true_iff in H as [H1 H2].
+  apply N.leb_le in H1, H2. replace (97 <=? c) with false by (symmetry; apply N.leb_gt; lia). reflexivity.
+Qed.
+
+(* a word whose upper-case form starts with a capital letter is not a TTL *)
+Lemma parse_ttl_mnem x X s : Mnem (x :: X) s -> is_upper x = true -> parse_ttl s = None.
+Proof.
+  unfold Mnem, upper_str. intros H Hx. destruct s as [|c r]; [discriminate|].
+  cbn [map] in H. inversion H as [[Hc Hr]]. apply parse_ttl_nondigit.
+  destruct (is_digit c) eqn:E; [|reflexivity]. rewrite (to_upper_digit c E) in Hc. subst c.
+  unfold is_upper, is_digit in *. apply andb_true_iff in Hx as [H1 H2]. apply andb_true_iff in E as [H3 H4].
+  apply N.leb_le in H1, H2, H3, H4. lia.
+Qed.
+
 (* ---------------- IPv4 ---------------- *)
 
 Lemma split_on_nosep : forall x sep rest cur, Forall (fun c => (c =? sep) = false) x ->
